@@ -4,6 +4,10 @@ import json, sys
 
 ENGINE = "gsx"
 CHECKS = {
+ "C27": dict(
+   text="The real publish loop and the subscription API calls run as goroutines inside the symbolic executor against a scripted server; the executor explores every select outcome and every interleaving up to a preemption bound and decides blocked-forever states (all goroutines blocked, no timer pending inside the time horizon). Counterexamples are replayed natively with delay points.",
+   note="Found and fixed: pause/resume signalling through two polled channels lost resumes and could block senders (publish loop paused for ever after cancel + subscribe; ForgetSubscription blocking under subMux). Bounded schedules (<= 1/2 forced context switches); the reconnect monitor is not part of the scenario. Trusted: go/ssa, gsx goroutine interpretation, z3.",
+   ref="DESIGN.md §5 C27"),
  "C34": dict(
    text="Two raw clients run short read/write programs with symbolic values against the real server pipeline inside the symbolic executor; the executor explores the interleavings of all goroutines involved up to a preemption bound, records each history on a logical clock and checks it against every linearization of a register. Schedule-dependent counterexamples are replayed natively with delay points that follow the explored schedule.",
    note="Bounded schedules (<= 1/2 forced context switches), 2 clients x <= 2 operations, one node. Data-race freedom at the memory-model level is C36 (not applicable). Trusted: go/ssa, gsx goroutine interpretation, z3.",
@@ -135,7 +139,6 @@ CHECKS = {
 }
 NOT_APPLICABLE = {
  "C08": "needs an independent Part 6 layout implementation in the harness compared byte for byte through the uninterpreted primitives; expressible with the engine but not built in this revision (DESIGN §6); C07 only sees layout errors that break gopcua-to-gopcua traffic",
- "C27": "all interleavings of the publish loop with API callers: the bounded-preemption explorer exists (C11) but the harness with the loop and its transport stub was not built (DESIGN §6)",
  "C28": "needs the monitor/subscription pump driven through ClientInterface stubs plus the server queue under schedules; not built (DESIGN §6)",
  "C25": "connection lifecycle under real TCP resets, server restarts and wall-clock outages: the quantified object is a fault sequence over the OS network stack and goroutine population, not a computation that can be encoded as solver queries within reach (DESIGN §6)",
  "C36": "data-race freedom is defined over the Go memory model / race detector happens-before relation on real schedules; the symbolic executor has no encoding of either (DESIGN §6)",
